@@ -1,4 +1,5 @@
 import StamModel.Validation
+import StamModel.Gen.ModePlan
 /-
   C18 — Text validation accepts unchanged text and flags changed text.
 
@@ -280,5 +281,15 @@ example :
       validateAll id texts' (protect id m texts anns) = ⟨1, 1, 0⟩) := by decide
 
 example : NoCollision (H := Text) id "ab".toList "ac".toList := by intro h; exact h
+
+/-! ### tie to the source: `Stam.Gen.modePlan` is regenerated from `protect_text` (src/textvalidation.rs) on every run -/
+
+/-- the decision the source takes (which of checksum and text to record, per mode and selected length, incl. the Auto
+threshold) is the model's `Mode.plan`; an equivalent rewrite of the comparison still checks -/
+theorem source_mode_plan_is_the_model (m : Stam.TV.Mode) (len : Nat) : Stam.Gen.modePlan m len = m.plan len := by
+  cases m <;> simp only [Stam.Gen.modePlan, Stam.TV.Mode.plan]
+  all_goals first
+    | rfl
+    | (split <;> split <;> first | rfl | omega)
 
 end Stam.TV.C18
